@@ -39,7 +39,7 @@ struct FileCases {
 
 const EXTRA_KINDS: [&str; 6] = ["truncate-midline", "xml-empty-text", "xml-remove-attribute", "cut-line-midway", "cut-line-at-a-quarter", "cut-line-at-three-quarters"];
 
-const NUM_REPL: [&str; 5] = ["abc", "1e39", "-1", "99999999", "0"];
+const NUM_REPL: [&str; 6] = ["abc", "1e39", "-1", "99999999", "0", "NaN"];
 
 fn is_delim(c: char) -> bool {
     c.is_whitespace() || matches!(c, '=' | ',' | '(' | ')' | ';' | '<' | '>' | '"')
@@ -599,7 +599,7 @@ pub fn run(ctx: &Ctx) -> i32 {
     ctx.sample(json!({"kind": k1, "case": d1}));
     ctx.finish(
         "fault_enumeration",
-        &format!("every single-edit corruption {{delete line, duplicate line, truncate after line, truncate in the middle of the line, cut the line at its middle / first quarter / third quarter}} of every line, {{element text emptied, attribute removed}} for every element / attribute of the XML part, {{remove block}} for every BDL block, {{rename reference}} for every reference occurrence, every numeric token x {{abc, 1e39, -1, 99999999}} of every shipped project file (12 .ctehexml, 56 .cte, 6 KyG, 7 .tbl: {} damaged files); thorough runs all of them, quick runs every edit of the smallest file of each format (deterministic core) plus the slice i = VERIF_SEED mod {} of the rest, plus - for every 3rd block that holds a non-ASCII letter - the deletion of its header line and of its first such line, the file cut in the middle of each, and each of them cut midway; each damaged text goes through ctehexml::parse + cached catalog + Model::try_from (resp. Data::new, kyg::parse, tbl::parse) in a supervised worker (15 s watchdog, 4 GiB, panic-site capture); non-trivial = the damage is noticed (error or panic)", total, stride),
+        &format!("every single-edit corruption {{delete line, duplicate line, truncate after line, truncate in the middle of the line, cut the line at its middle / first quarter / third quarter}} of every line, {{element text emptied, attribute removed}} for every element / attribute of the XML part, {{remove block}} for every BDL block, {{rename reference}} for every reference occurrence, every numeric token x {{abc, 1e39, -1, 99999999, 0, NaN}} of every shipped project file (12 .ctehexml, 56 .cte, 6 KyG, 7 .tbl: {} damaged files); thorough runs all of them, quick runs every edit of the smallest file of each format (deterministic core) plus the slice i = VERIF_SEED mod {} of the rest, plus - for every 3rd block that holds a non-ASCII letter - the deletion of its header line and of its first such line, the file cut in the middle of each, and each of them cut midway; each damaged text goes through ctehexml::parse + cached catalog + Model::try_from (resp. Data::new, kyg::parse, tbl::parse) in a supervised worker (15 s watchdog, 4 GiB, panic-site capture); non-trivial = the damage is noticed (error or panic)", total, stride),
         ctx.tier == Tier::Thorough,
         json!({"space_size": total}),
     )
